@@ -190,3 +190,36 @@ def transform_primers(method, x, y, xo, dy_key=None, dy=None, kw=None):
 def exceeds(value, tol):
     """value > tol, with NaN counting as exceeding (a NaN in a difference must never pass as agreement)"""
     return not (value <= tol)
+
+
+_NEW_OPTS = None
+
+
+def new_options():
+    """keyword option names that the current source reads from **kwargs and the pinned tree did not (harness/known_options.json, written from the
+    pinned tree): on the unchanged tree this is empty.  A failing-input search aid: a feature added behind a new keyword is exercised by switching it on."""
+    global _NEW_OPTS
+    if _NEW_OPTS is None:
+        import ast, glob, json, os
+        import impl
+        known = set(json.load(open(os.path.join(os.path.dirname(os.path.dirname(os.path.abspath(__file__))), "known_options.json"))))
+        found = set()
+        srcdir = os.path.dirname(impl.pystog.__file__)
+        for f in glob.glob(os.path.join(srcdir, "*.py")):
+            try:
+                t = ast.parse(open(f).read())
+            except SyntaxError:
+                continue
+            for n in ast.walk(t):
+                if (isinstance(n, ast.Call) and isinstance(n.func, ast.Attribute) and n.func.attr in ("get", "pop", "setdefault")
+                        and isinstance(n.func.value, ast.Name) and n.func.value.id == "kwargs" and n.args
+                        and isinstance(n.args[0], ast.Constant) and isinstance(n.args[0].value, str)):
+                    found.add(n.args[0].value)
+                if (isinstance(n, ast.Subscript) and isinstance(n.value, ast.Name) and n.value.id == "kwargs"
+                        and isinstance(n.slice, ast.Constant) and isinstance(n.slice.value, str)):
+                    found.add(n.slice.value)
+                if (isinstance(n, ast.Compare) and len(n.ops) == 1 and isinstance(n.ops[0], ast.In) and isinstance(n.left, ast.Constant)
+                        and isinstance(n.left.value, str) and isinstance(n.comparators[0], ast.Name) and n.comparators[0].id == "kwargs"):
+                    found.add(n.left.value)
+        _NEW_OPTS = sorted(found - known)
+    return _NEW_OPTS
